@@ -33,7 +33,7 @@ ASSUME = [
 ]
 CFG = gens.Cfg(ids=(0, 1, 2), nsyms=2)
 
-ALPHABET = list(range(2, 31)) + [137, 0, 1, 31, 255]
+ALPHABET = list(range(2, 31)) + [137, 0, 1, 31, 255, 127, 128]
 PREFIXES = {
     'empty': b'',
     'patterns': bytes([137, 0, 2, 1, 3, 0, 9, 1, 1, 0, 1, 1, 0, 0, 0]),        # phi0, x1, X0, phi1{ef x0, sf X1}
@@ -183,6 +183,17 @@ def gen_shard(stats: Stats, shard_i, nshards, seed, tier):
             cand[ph] = (junk + cand[ph]) if (mut[2] >> 5) % 2 else (cand[ph] + junk)
             cand[ph + 1] = (cand[ph + 1] + use) if (mut[2] >> 6) % 2 else (use + cand[ph + 1])
             cases.append(tuple(cand)); meta.append(('mut', ['mut-phase-leak']))
+    # scale: a memory of up to 255 entries before the program proper (indices around the signed-byte and byte boundaries), and
+    # loads of the bulk entries afterwards
+    for case in batch[: max(3, len(batch) // 10)]:
+        lk = case.get('leak', 0)
+        nbulk = [100, 126, 127, 128, 129, 200, 254, 255][lk % 8]
+        bulk = bytes([2, lk % 3]) + bytes([28]) * nbulk + bytes([27])
+        tailk = [0, nbulk - 1, nbulk, 127, 128, (lk >> 3) % 256][(lk >> 3) % 6] % 256
+        ph = 2 if (lk >> 6) % 2 else 0
+        cand = [case['g'], case['c'], case['p']]
+        cand[ph] = bulk + cand[ph] + bytes([29, tailk]) + (bytes([27]) if (lk >> 7) % 2 else b'')
+        cases.append(tuple(cand)); meta.append(('mut', ['mut-bulk-memory']))
     # truncation at every offset of the proof stream for a few programs
     for case in batch[: max(5, len(batch) // 20)]:
         for k in range(len(case['p'])):
